@@ -26,7 +26,7 @@ REPO = os.environ.get("VERIF_REPO", "/repo")
 COQ = os.path.join(VERIF, "coq")
 BUILD = os.path.join(VERIF, "build")
 PY = "/venv/bin/python"
-NPROC = min(16, os.cpu_count() or 4)
+NPROC = int(os.environ.get("VERIF_NPROC") or min(16, os.cpu_count() or 4))
 FORBIDDEN = re.compile(
     r"\b(Admitted|admit|Axiom|Axioms|Parameter|Parameters|Conjecture|Conjectures|"
     r"Admit Obligations|Unset Guard Checking|Unset Positivity Checking|"
